@@ -6,9 +6,9 @@ Export schema as SDL.
 import itertools
 from typing import Any, Sequence, Union
 
-from .._string_utils import wrapped_lines
+from .._string_utils import parse_block_string, wrapped_lines
 from .._utils import flatten
-from ..lang import print_ast
+from ..lang import ast as _ast, print_ast
 from ..schema import (
     SPECIFIED_DIRECTIVES,
     SPECIFIED_SCALAR_TYPES,
@@ -33,6 +33,12 @@ from ..utilities.ast_node_from_value import ast_node_from_value
 
 
 _SPECIFIED_DIRECTIVE_NAMES = tuple(d.name for d in SPECIFIED_DIRECTIVES)
+
+
+def _is_block_string_value(value: str) -> bool:
+    return parse_block_string(value) == value and not any(
+        c < " " and c not in "\t\n" for c in value
+    )
 
 
 class ASTSchemaPrinter:
@@ -133,12 +139,27 @@ class ASTSchemaPrinter:
             return ""
 
         indent = self.indent * depth
+        leading = "\n" if indent and not first_in_block else ""
+
+        if not _is_block_string_value(definition.description):
+            # Block strings cannot express every string (control characters,
+            # leading or trailing blank lines, common indentation).
+            return "%s%s%s\n" % (
+                leading,
+                indent,
+                print_ast(_ast.StringValue(value=definition.description)),
+            )
 
         max_len = 120 - len(indent)
         lines = list(wrapped_lines(definition.description.split("\n"), max_len))
         first = lines[0]
 
-        if len(lines) == 1 and len(first) < 70 and not first.endswith('"'):
+        if (
+            len(lines) == 1
+            and len(first) < 70
+            and not first.endswith('"')
+            and not first.endswith("\\")
+        ):
             body = first.replace('"""', '\\"""')
         else:
             has_leading_whitespace = len(first) > len(first.lstrip())
@@ -162,11 +183,7 @@ class ASTSchemaPrinter:
                 + indent
             )
 
-        return '%s%s"""%s"""\n' % (
-            "\n" if indent and not first_in_block else "",
-            indent,
-            body,
-        )
+        return '%s%s"""%s"""\n' % (leading, indent, body)
 
     def print_deprecated(
         self, field_or_enum_value: Union[Field, EnumValue]
